@@ -18,7 +18,9 @@ from . import common as C
 
 PID = "C04"
 RULE = ("one case = random map pipeline x persisting storage (file_array | dict | shared_memory_dict with "
-        "persist_memory=True; uniform and per-output mixes) x sequential|simulated-parallel run, followed by a history "
+        "persist_memory=True; uniform and per-output mixes) x sequential|simulated-parallel run x folder prehistory (empty | an earlier attempt with other or the same inputs that "
+        "died at a tape-chosen file-system event | a complete run with other inputs followed by cleanup=True | a "
+        "partial fixed_indices run with the same inputs followed by cleanup=False), followed by a history "
         "of 1-6 loads (load_outputs of 1-3 names, RunInfo.load, load_xarray_dataset with/without intermediates), each "
         "in the process that ran the map or after a simulated process exit (all manager processes shut down, all "
         "objects dropped, directory order re-permuted), possibly several successive fresh processes. "
